@@ -18,7 +18,9 @@
 (*               fresh identity with equal fields to every other output;   *)
 (*   ArrivalDrop -- tail / RED drop of the packet that has just arrived,   *)
 (*               only at a port, RED port or switch, and it is counted;    *)
-(*   LossDrop -- loss on a wire that has a loss rate;                      *)
+(*   LossDrop -- loss on a wire that has a loss rate (ForwardPastLost and  *)
+(*               LoseRest are LossDrops folded into the step that reveals  *)
+(*               them, for trace validation);                              *)
 (*   RouteDrop -- a demultiplexer / switch that has no route for the flow. *)
 (* Nothing else removes a packet and nothing else creates one (Emit, by a  *)
 (* source).  The model is untimed: C08 says nothing about when.            *)
@@ -129,6 +131,31 @@ ArrivalDrop(a, o) == /\ ~done /\ CountedDrop(a) /\ Len(held[a]) > 0 /\ held[a][L
                      /\ Discard(a, Len(held[a]), TRUE)
 LossDrop(a, o) == ~done /\ LossyWire(a) /\ \E i \in Idx(a, o) : Discard(a, i, FALSE)
 RouteDrop(a, o) == ~done /\ \E i \in Idx(a, o) : NoRoute(a, Flow(held[a][i].fl)) /\ Discard(a, i, FALSE)
+
+(* ---- a lossy wire hands on packet o although older packets of its flow are still held: those were lost ---- *)
+\* (Forward preceded by the LossDrop of every older packet of the flow, as one step.  Wire loss has no tap and no
+\*  counter; a packet that is overtaken inside the wire by a later one of its own flow can only have been lost.)
+OlderOfFlow(a, i) == {j \in 1..(i - 1) : Flow(held[a][j].fl) = Flow(held[a][i].fl)}
+RECURSIVE Without(_, _, _)
+Without(s, D, n) == IF n = 0 THEN <<>>
+                    ELSE IF n \in D THEN Without(s, D, n - 1) ELSE Append(Without(s, D, n - 1), s[n])
+ForwardPastLost(a, b, o, fl) ==
+  /\ ~done /\ LossyWire(a) /\ b \in Succ(a) /\ b # a /\ Room(b)
+  /\ \E i \in Idx(a, o) :
+       LET D == OlderOfFlow(a, i) IN
+       /\ D # {}
+       /\ held[a][i].fl = fl
+       /\ held' = [held EXCEPT ![a] = Without(@, D \cup {i}, Len(@)), ![b] = Append(@, Entry(b, o, fl))]
+       /\ ndrop' = [ndrop EXCEPT ![a] = @ + Cardinality(D)]
+  /\ nout' = [nout EXCEPT ![a] = @ + 1]
+  /\ nin' = [nin EXCEPT ![b] = @ + 1]
+  /\ UNCHANGED <<ncnt, seen, done, cfg>>
+\* whatever a lossy wire still holds when it has nothing more to do was lost
+LoseRest(a) ==
+  /\ ~done /\ LossyWire(a) /\ held[a] # <<>>
+  /\ held' = [held EXCEPT ![a] = <<>>]
+  /\ ndrop' = [ndrop EXCEPT ![a] = @ + Len(held[a])]
+  /\ UNCHANGED <<nin, nout, ncnt, seen, done, cfg>>
 
 (* ---- the simulation has run out of events ---- *)
 Quiescent == \A e \in Els : IsSink(e) \/ held[e] = <<>>
